@@ -214,7 +214,17 @@ Definition vesa_scroll (c : vesa) (m : fbuf) (dir lines : N) : res :=
     else Ok m
   end.
 
-(** ---- flat interface for the correspondence driver ---- *)
+(** SetPaletteColor(idx, rgb): the palette entry changes (the repainting of pixels that showed the old
+    colour, replace16/24, is not modelled: the harness undoes it) *)
+Definition set_palette (c : vesa) (idx : N) (rgb : N * N * N) : vesa :=
+  mkVesa (bpp c) (bytespp c) (cinfo c) (pw c) (ph c) (offsetY c) (pitch c) (fnt c) (wchars c) (hchars c)
+         (pal_len c) (fun i => if i =? idx then rgb else pal c i).
+
+(** ---- flat interface for the correspondence driver ----
+    ops: 0 ch fg bg x y = Write | 1 x y width height fg bg = Fill | 2 dir lines = Scroll |
+         3 = SetFont with the font already set | 4 = SetLogo with the logo already set (its drawing undone) |
+         5 idx r g b = SetPaletteColor (its repainting undone).  3 and 4 leave the console as it is;
+    the observation of 3, 4, 5 is the status only. *)
 Fixpoint vesa_run (fuel : nat) (c : vesa) (m : fbuf) (l : list N) : list N :=
   match fuel with O => [] | S fuel =>
   match l with
@@ -227,6 +237,9 @@ Fixpoint vesa_run (fuel : nat) (c : vesa) (m : fbuf) (l : list N) : list N :=
   | 2 :: dir :: lines :: rest =>
       let r := vesa_scroll c m dir lines in
       status_of r :: dump (res_mem r) ++ vesa_run fuel c (res_mem r) rest
+  | 3 :: rest => 0 :: vesa_run fuel c m rest
+  | 4 :: rest => 0 :: vesa_run fuel c m rest
+  | 5 :: idx :: r :: g :: b :: rest => 0 :: vesa_run fuel (set_palette c idx (r, g, b)) m rest
   | _ => []
   end end.
 
